@@ -286,6 +286,10 @@ func mkSet(rng *rand.Rand) *pSet {
 		"wsHuge": func() string { return digestAny(p.wsHuge) }, "wsTiny": func() string { return digestAny(p.wsTiny) },
 		"gBig": func() string { return digestAny(graph.Graph(p.gBig)) }, "xsBig": func() string { return digestAny(p.xsBig) },
 		"xsSorted": func() string { return digestAny(p.xsSorted) },
+		// the package's public variables are inputs of every call that reads them, and nobody's output
+		"config": func() string {
+			return fmt.Sprint(stats.MannWhitneyExactLimit, stats.MannWhitneyTiesExactLimit, stats.StdNormal)
+		},
 		"attrs":    func() string { return fmt.Sprintf("%v", p.attrs) },
 		"samp":     func() string { return digSample(&p.samp) }, "wsamp": func() string { return digSample(&p.wsamp) },
 		"sortMe": func() string { return digSample(&p.sortMe) }, "swsamp": func() string { return digSample(&p.swsamp) },
@@ -352,15 +356,15 @@ func purityEntries() []pEntry {
 		{"SWSample.Bounds", []string{"swsamp"}, "", false, func(p *pSet) any { return pairs(p.swsamp.Bounds()) }},
 		{"LinearRev.Ticks", []string{"linRev"}, "", false, func(p *pSet) any { a, b := p.linRev.Ticks(scale.TickOptions{Max: 7}); return []any{a, b} }},
 		{"LinearRev.Map", []string{"linRev"}, "", false, func(p *pSet) any { return []any{p.linRev.Map(25), p.linRev.Unmap(0.25)} }},
-		{"stats.MannWhitneyUTest/less", []string{"xs1", "xs2"}, "", false, func(p *pSet) any {
+		{"stats.MannWhitneyUTest/less", []string{"xs1", "xs2", "config"}, "", false, func(p *pSet) any {
 			r, e := stats.MannWhitneyUTest(p.xs1, p.xs2, stats.LocationLess)
 			return []any{r, e}
 		}},
-		{"stats.MannWhitneyUTest/differs", []string{"xs1", "xs2"}, "", false, func(p *pSet) any {
+		{"stats.MannWhitneyUTest/differs", []string{"xs1", "xs2", "config"}, "", false, func(p *pSet) any {
 			r, e := stats.MannWhitneyUTest(p.xs1, p.xs2, stats.LocationDiffers)
 			return []any{r, e}
 		}},
-		{"stats.MannWhitneyUTest/greater", []string{"xs2", "xs1"}, "", false, func(p *pSet) any {
+		{"stats.MannWhitneyUTest/greater", []string{"xs2", "xs1", "config"}, "", false, func(p *pSet) any {
 			r, e := stats.MannWhitneyUTest(p.xs2, p.xs1, stats.LocationGreater)
 			return []any{r, e}
 		}},
@@ -459,6 +463,14 @@ func purityEntries() []pEntry {
 			for n := 3; n <= 130; n++ {
 				out = append(out, tri(stats.MeanCI(sweepXs[:n], 0.95)))
 			}
+			return out
+		}},
+		{"sweep: Choose and small binomials", []string{}, "", false, func(p *pSet) any {
+			var out []any
+			for n := 1; n <= 40; n++ {
+				out = append(out, mathx.Choose(n, n/2), mathx.Choose(n, 1), stats.BinomialDist{N: n, P: 0.4}.PMF(float64(n/2)))
+			}
+			out = append(out, stats.UDist{N1: 3, N2: 4, T: []int{2, 3, 2}}.CDF(5.5))
 			return out
 		}},
 		{"sweep: TDist{1..300}.CDF", []string{}, "", false, func(p *pSet) any {
@@ -630,6 +642,12 @@ func purityRecord(out io.Writer, args []string) error {
 		}
 		rng := rand.New(rand.NewSource(*rf.seed*1000003 + int64(idx)))
 		p := mkSet(rng)
+		// every other session runs under a legal but unusual configuration: the ties limit above the plain limit
+		if idx%2 == 1 {
+			stats.MannWhitneyExactLimit, stats.MannWhitneyTiesExactLimit = 12, 30
+		} else {
+			stats.MannWhitneyExactLimit, stats.MannWhitneyTiesExactLimit = 50, 25
+		}
 		var mu sync.Mutex
 		seqs := map[int]int{}
 		enc.Encode(pEvent{Op: "Reset", Args: []pArg{}, Seed: *rf.seed, Idx: idx})
@@ -665,6 +683,41 @@ func purityRecord(out io.Writer, args []string) error {
 			ev.Seq = seqs[g]
 			enc.Encode(ev)
 			mu.Unlock()
+		}
+		// cold start (once per process, before anything else has called the library): sixteen goroutines released together,
+		// each beginning with the sweep over small sizes and going on with other read-only entry points - tables filled on
+		// first use and one-time initialisation happen under concurrency here, or never (goroutine ids 101..116)
+		if !purityCold {
+			purityCold = true
+			var cold []*pEntry
+			var first *pEntry
+			for k := range entries {
+				e := &entries[k]
+				if e.seqOnly || strings.Contains(e.name, "(shared BiGraph)") {
+					continue
+				}
+				cold = append(cold, e)
+				if strings.HasPrefix(e.name, "sweep: Choose") {
+					first = e
+				}
+			}
+			var cwg sync.WaitGroup
+			release := make(chan struct{})
+			for g := 101; g <= 116; g++ {
+				cwg.Add(1)
+				go func(g int) {
+					defer cwg.Done()
+					<-release
+					if first != nil {
+						do(g, first, false)
+					}
+					for c := 0; c < 5; c++ {
+						do(g, cold[(g*7+c*13)%len(cold)], false)
+					}
+				}(g)
+			}
+			close(release)
+			cwg.Wait()
 		}
 		// sequential phase: every entry point, repeated with unrelated calls in between
 		for r := 0; r < *reps; r++ {
@@ -729,3 +782,5 @@ var sweepXs = func() []float64 {
 	}
 	return x
 }()
+
+var purityCold bool
